@@ -19,12 +19,13 @@ import TfelVerif.C33.GenTable
 namespace TfelVerif.C33.Props
 open TfelVerif.C33
 
-/-- bytes `>= 128`: what the characters of the table are made of -/
-def high (c : Nat) : Bool := decide (128 ≤ c)
-/-- bytes `< 128` (ASCII): what the mangled names are made of -/
-def low (c : Nat) : Bool := decide (c < 128)
+/-! ## Part 1 — the table (all entries, by evaluation)
 
-/-! ## Part 1 — the table (all entries, by evaluation) -/
+The Boolean checks of Checks.lean are evaluated by the kernel on the generated table
+(`decide +kernel`: no compiler, no axiom); their meaning comes from the soundness lemmas. -/
+
+/-- the table has the announced number of entries and is not empty -/
+theorem table_size : Gen.table.length = Gen.size ∧ 0 < Gen.size := by decide +kernel
 
 /-- every entry: the character is one well-formed UTF-8 encoded code point below U+10000, Lean's
 own UTF-8 encoder maps that code point to the same bytes, and the mangled name is the prefix
@@ -32,56 +33,64 @@ followed by the four upper-case hexadecimal digits of the code point -/
 theorem table_names_encode_code_points :
     ∀ e ∈ Gen.table, ∃ cp, utf8Decode e.1 = some cp ∧ cp < 65536 ∧ leanUtf8 cp = e.1 ∧
       e.2 = pfx ++ hex4 cp := by
-  have h : (Gen.table.all fun e =>
-      match utf8Decode e.1 with
-      | some cp => decide (cp < 65536) && decide (leanUtf8 cp = e.1) && decide (e.2 = pfx ++ hex4 cp)
-      | none => false) = true := by decide +kernel
+  have h : encodesB Gen.table = true := by decide +kernel
   intro e he
   have := List.all_eq_true.mp h e he
   split at this
   · rename_i cp hcp
-    simp only [Bool.and_eq_true, decide_eq_true_iff] at this
-    exact ⟨cp, hcp, this.1.1, this.1.2, this.2⟩
+    simp only [Bool.and_eq_true, Bool.not_eq_true'] at this
+    refine ⟨cp, hcp, ?_, eq_of_eqBytes _ _ this.1.2, eq_of_eqBytes _ _ this.2⟩
+    have := this.1.1
+    rw [← Bool.not_eq_true, Nat.ble_eq] at this
+    omega
   · cases this
-
-/-- the table has the announced number of entries and is not empty -/
-theorem table_size : Gen.table.length = Gen.size ∧ 0 < Gen.size := by decide +kernel
 
 /-- the characters are pairwise distinct, and so are the mangled names -/
 theorem table_entries_distinct :
-    (Gen.table.map Prod.fst).Nodup ∧ (Gen.table.map Prod.snd).Nodup := by decide +kernel
+    (Gen.table.map Prod.fst).Nodup ∧ (Gen.table.map Prod.snd).Nodup := by
+  constructor
+  · exact nodup_of_noDupKeys ucKey _ (by decide +kernel)
+  · exact nodup_of_noDupKeys nameKey _ (by decide +kernel)
 
-/-- all mangled names have the same length (prefix + 4) and are ASCII; all characters are made of
-bytes `>= 128` -/
+/-- all mangled names have the same length (prefix + 4), start with the prefix and are ASCII; all
+characters are made of bytes `>= 128` -/
 theorem table_shapes :
-    ∀ e ∈ Gen.table, e.2.length = pfx.length + 4 ∧ (∀ c ∈ e.2, c < 128) ∧ (∀ c ∈ e.1, 128 ≤ c) := by
-  have h : (Gen.table.all fun e =>
-      decide (e.2.length = pfx.length + 4) && e.2.all low && e.1.all high) = true := by decide +kernel
+    ∀ e ∈ Gen.table, e.2.length = pfx.length + 4 ∧ pfx <+: e.2 ∧ (∀ c ∈ e.2, c < 128) ∧
+      (∀ c ∈ e.1, 128 ≤ c) := by
+  have h1 : shapesB Gen.table = true := by decide +kernel
+  have h2 : classesB high Gen.table = true := by decide +kernel
   intro e he
-  have := List.all_eq_true.mp h e he
-  simp only [Bool.and_eq_true, decide_eq_true_iff, List.all_eq_true, low, high] at this
-  exact ⟨this.1.1, this.1.2, this.2⟩
-
-/-- lead bytes of the characters: `11xxxxxx`; the other bytes of a character are `10xxxxxx` -/
-def ucLead (c : Nat) : Bool := decide (192 ≤ c)
-/-- length of a UTF-8 sequence, from its lead byte -/
-def ucLen (c : Nat) : Nat := if c < 224 then 2 else if c < 240 then 3 else 4
-/-- lead byte of the mangled names: `t`, which occurs nowhere else in a name -/
-def nameLead (c : Nat) : Bool := decide (c = 116)
+  have a := List.all_eq_true.mp h1 e he
+  have b := List.all_eq_true.mp h2 e he
+  simp only [Bool.and_eq_true] at a b
+  have hl : e.2.length = 26 := Nat.eq_of_beq_eq_true a.1
+  have hp : e.2.take 22 = pfx := eq_of_eqBytes _ _ a.2
+  refine ⟨by rw [hl]; rfl, ?_, ?_, ?_⟩
+  · rw [← hp]; exact List.take_prefix _ _
+  · intro c hc
+    have := List.all_eq_true.mp b.2 c hc
+    simp only [high, Bool.not_eq_true'] at this
+    rw [← Bool.not_eq_true, Nat.ble_eq] at this
+    omega
+  · intro c hc
+    have := List.all_eq_true.mp b.1.1.2 c hc
+    simp only [high, Nat.ble_eq] at this
+    exact this
 
 /-- each character is a lead byte followed by continuation bytes, its length being determined by
 the lead byte (UTF-8 self-synchronisation); the characters are pairwise distinct -/
 theorem table_lead_code : LeadCode (fun c => ucLead c = true) ucLen Gen.table :=
   leadCode_of_leadB (by decide +kernel) table_entries_distinct.1
 
+theorem swap_fst : (swap Gen.table).map Prod.fst = Gen.table.map Prod.snd := by
+  unfold swap; rw [List.map_map]; rfl
+
 /-- each mangled name is `t` followed by bytes other than `t`, all names have the same length and
 are pairwise distinct -/
 theorem table_lead_code_swap :
-    LeadCode (fun c => nameLead c = true) (fun _ => pfx.length + 4) (swap Gen.table) := by
+    LeadCode (fun c => nameLead c = true) (fun _ => nameLen) (swap Gen.table) := by
   refine leadCode_of_leadB (by decide +kernel) ?_
-  have : (swap Gen.table).map Prod.fst = Gen.table.map Prod.snd := by
-    unfold swap; rw [List.map_map]; rfl
-  rw [this]; exact table_entries_distinct.2
+  rw [swap_fst]; exact table_entries_distinct.2
 
 /-- no character of the table is a substring of another one, and no mangled name is a substring
 of another one -/
@@ -101,18 +110,14 @@ theorem table_good : Good (fun c => high c = true) Gen.table :=
     table_entries_distinct.1
 
 /-- … and for demangling: no mangled name can start inside (or together with) another -/
-theorem table_good_swap : Good (fun c => low c = true) (swap Gen.table) := by
-  have hnd : ((swap Gen.table).map Prod.fst).Nodup := table_lead_code_swap.nodup
-  exact good_of_checks (h := low) (L := nameLead) (len := fun _ => pfx.length + 4)
-    (by decide +kernel) (by decide +kernel) hnd
+theorem table_good_swap : Good (fun c => low c = true) (swap Gen.table) :=
+  good_of_checks (h := low) (L := nameLead) (len := fun _ => nameLen)
+    (by decide +kernel) (by decide +kernel) table_lead_code_swap.nodup
 
 /-- every mangled name starts with the prefix; the prefix is `t` followed by bytes other than `t` -/
 theorem table_prefix :
-    (∀ e ∈ Gen.table, pfx <+: e.2) ∧ ∃ t pfx', pfx = t :: pfx' ∧ t ∉ pfx' := by
-  refine ⟨?_, 116, pfx.tail, by decide, by decide⟩
-  have h : (Gen.table.all fun e => pfx.isPrefixOf e.2) = true := by decide +kernel
-  intro e he
-  exact List.isPrefixOf_iff_prefix.mp (List.all_eq_true.mp h e he)
+    (∀ e ∈ Gen.table, pfx <+: e.2) ∧ ∃ t pfx', pfx = t :: pfx' ∧ t ∉ pfx' :=
+  ⟨fun e he => (table_shapes e he).2.1, 116, pfx.tail, by decide, by decide⟩
 
 /-! ## Part 2 — every string -/
 
@@ -164,7 +169,7 @@ theorem mangle_ascii (s : List Nat) (h : Clean s) : ∀ c ∈ mangle Gen.table s
         simp only [List.cons_append, List.cons.injEq] at hz
         have := hH h0 (by rw [h1]; simp)
         rw [hz.1] at this
-        simp only [high, decide_eq_true_iff] at this
+        simp only [high, Nat.ble_eq] at this
         omega
     rw [sim_cons_none hnone]
     intro c hc
@@ -177,7 +182,7 @@ theorem mangle_ascii (s : List Nat) (h : Clean s) : ∀ c ∈ mangle Gen.table s
     rw [sim_pattern_append (table_good.pat e he).1 hf]
     intro c hc
     rcases List.mem_append.mp hc with h | h
-    · exact (table_shapes e he).2.1 c h
+    · exact (table_shapes e he).2.2.1 c h
     · exact ih c h
 
 /-- a supported character at the head of the string is replaced by its mangled name -/
@@ -213,7 +218,7 @@ theorem demangle_mangle_needs_hypothesis :
       have hhigh := hH h0 (by rw [h1]; simp)
       have hlow : ∀ c ∈ pfx ++ hex4 0x3B1, c < 128 := by decide
       have := hlow h0 hmem0
-      simp only [high, decide_eq_true_iff] at hhigh
+      simp only [high, Nat.ble_eq] at hhigh
       omega
   rw [h1, demangle_is_simultaneous_scan]
   have hsw : (pfx ++ hex4 0x3B1, [206, 177]) ∈ swap Gen.table := by
